@@ -234,7 +234,18 @@ class Inliner:
         q = quals[0]
         h0 = self.p0.funcs[q]
         nm = h0.name
-        if getattr(call, "_foreign", False) or h0.module.name != self.m.name or q not in self.pristine or not _is_candidate_name(nm) or h0.outer is not None or q in stack:
+        if getattr(call, "_foreign", False) or not _is_candidate_name(nm) or h0.outer is not None or q in stack:
+            return None
+        if h0.module.name != self.m.name and q not in self.pristine:
+            # a single-expression helper of another module: only if every global name it uses means the same thing here
+            if not self._foreign_compatible(h0):
+                return None
+            fn = copy.deepcopy(h0.node)
+            for n in ast.walk(fn):
+                n.__dict__.pop("_parent", None)
+                n._foreign = True  # type: ignore[attr-defined]
+            self.pristine[q] = fn
+        if q not in self.pristine:
             return None
         hdef = self.pristine[q]
         body = hdef.body
